@@ -766,7 +766,10 @@ public:
       Ctx c;
       c.maxSamples = 3;
       RunResult rr;
-      if(now_s() > deadline)
+      // VERIF_PHASE=<substring>: run only the phases whose name contains it (development aid: lets a deep phase of a thorough tier be run on its own; the skipped
+      // phases are reported as not executed and the run as not exhaustive)
+      const char* only = getenv("VERIF_PHASE");
+      if(now_s() > deadline || (only && *only && name.find(only) == std::string::npos))
       {
          rr.total = N * o.perturb.size();
          rr.exhaustive = false;
